@@ -374,6 +374,22 @@ fn run(case: &Case, out: &mut Out) {
                 }
                 out.obs(&obs);
             }
+            "blackbox" => {
+                let exe = std::env::current_exe().ok().and_then(|p| p.parent().map(|d| d.join("c14bb")));
+                if let Some(exe) = exe {
+                    let args: Vec<String> = a.iter().map(|t| t.to_string()).collect();
+                    if let Ok(o) = std::process::Command::new(exe).args(&args).output() {
+                        for l in String::from_utf8_lossy(&o.stdout).lines() {
+                            if let Some(rest) = l.strip_prefix("viol ") {
+                                let mut it = rest.splitn(2, ' ');
+                                let class = it.next().unwrap_or("bb");
+                                out.viol(class, it.next().unwrap_or(""));
+                            }
+                        }
+                    }
+                }
+                out.obs(&[]);
+            }
             other => {
                 out.note(&format!("invalid-case: unknown op {other}"));
                 out.obs(&[]);
